@@ -159,7 +159,7 @@ func (l layout18) stmtSepNonEmpty() string {
 	return []string{" ", "\n", " ; ", ";"}[l.r.Intn(4)]
 }
 
-var exprs18 = [][]string{{"n"}, {"n", "+", "1"}, {"s"}, {`"lit<"`}, {"xs", "[", "0", "]"}, {"len", "(", "xs", ")"}, {"n", "*", "(", "2", "+", "n", ")"}, {"!", "f"},
+var exprs18 = [][]string{{"n"}, {"(", "n", "+", "2", ")"}, {"n", "+", "1"}, {"s"}, {`"lit<"`}, {"xs", "[", "0", "]"}, {"len", "(", "xs", ")"}, {"n", "*", "(", "2", "+", "n", ")"}, {"!", "f"},
 	{"n", "==", "3", "&&", "t"}, {"m", "[", `"a"`, "]"}, {"o.Name"}, {"0", "-", "n"}, {"s", "+", `" x"`}, {"[", "1", ",", "2", "]"}, {"{", "k", ":", "n", "}", "[", `"k"`, "]"},
 	{"o.In.Hello", "(", `"w"`, ")"}, {"o.Ins", "[", "0", "]", ".", "Name"}, {"Name"}, {"o.Ins", "[", "1", "]", ".", "Name"}, {"o.Get", "(", ")", ".", "Name"}, {"truncate", "(", "s", ",", "{", "size", ":", "3", "}", ")"}, {"n", "<=", "3", "||", "f"}, {"1.5", "+", "0.25"}, {"acc"}}
 
@@ -168,7 +168,13 @@ func gen18(r *Rng, depth int) []litem18 {
 	var items []litem18
 	pick := func() []string { return exprs18[r.Intn(len(exprs18))] }
 	stmt := func() []string {
-		switch r.Intn(3) {
+		switch r.Intn(4) {
+		case 3:
+			// element assignment (a statement that ends with an arbitrary expression)
+			if r.Bool() {
+				return append([]string{"xs", "[", "0", "]", "="}, pick()...)
+			}
+			return append([]string{"m", "[", `"a"`, "]", "="}, pick()...)
 		case 0:
 			return append([]string{"let", []string{"u", "w", "acc"}[r.Intn(3)], "="}, pick()...)
 		case 1:
@@ -271,6 +277,29 @@ func init() {
 						key = c18afterKey(prog, o0, o)
 					}
 					e.Violate(key, fmt.Sprintf("canonical %q renders %q but re-layout (style %d) %q renders %q", canon, norm(o0), style, src, norm(o)), map[string]interface{}{"canonical": canon, "relayout": src, "observed": o, "canonical_observed": o0})
+				}
+			}
+		}
+		// every kind of silent statement followed, in the same tag, by every kind of statement opening
+		// (identifier, keyword, and the openings ( [ { ! that a missing terminator would glue on)
+		{
+			firsts := [][]string{{"let", "u", "=", "n"}, {"acc", "=", "acc", "+", "1"}, {"xs", "[", "0", "]", "=", "7"}, {"m", "[", `"a"`, "]", "=", "n", "+", "1"}, {"n"}, {"len", "(", "xs", ")"},
+				{"let", "u", "=", "xs", "[", "0", "]"}, {"xs", "[", "0", "]", "=", "xs", "[", "1", "]"}, {"let", "u", "=", "fn", "(", ")", "{", "return", "1", "}"}}
+			seconds := [][]string{{"(", "xs", "[", "1", "]", ")"}, {"[", "xs", "[", "1", "]", "]"}, {"{", "k", ":", "n", "}"}, {"!", "f"}, {"acc", "=", "acc", "+", "xs", "[", "0", "]"}, {"let", "w", "=", "m", "[", `"a"`, "]"},
+				{"if", "(", "t", ")", "{", "acc", "=", "5", "}"}, {"xs", "[", "1", "]", "=", "9"}}
+			probe := `|<%= acc %>|<%= xs[0] %>|<%= xs[1] %>|<%= m["a"] %>`
+			for _, f := range firsts {
+				for _, g := range seconds {
+					canon := "<% " + strings.Join(f, " ") + " %><% " + strings.Join(g, " ") + " %>" + probe
+					o0 := e.addRenderCase("pair-canon", RCase{Tmpl: canon, Binds: binds})
+					e.Distinct(canon)
+					for _, sep := range []string{";", " ; ", ";\n", " ;\t"} {
+						src := "<% " + strings.Join(f, " ") + sep + strings.Join(g, " ") + " %>" + probe
+						o := e.addRenderCase("pair-merged", RCase{Tmpl: src, Binds: binds})
+						if norm(o) != norm(o0) {
+							e.Violate("c18-layout", fmt.Sprintf("canonical %q renders %q but merged into one tag %q renders %q", canon, norm(o0), src, norm(o)), map[string]interface{}{"canonical": canon, "relayout": src, "observed": o, "canonical_observed": o0})
+						}
+					}
 				}
 			}
 		}
